@@ -1075,7 +1075,7 @@ class FileStorage(
 
     def _txn_find(self, tid, stop_at_pack):
         pos = self._pos
-        while pos > 39:
+        while pos > 4:
             self._file.seek(pos - 8)
             pos = pos - u64(self._file.read(8)) - 8
             self._file.seek(pos)
@@ -2122,8 +2122,9 @@ class UndoSearch:
 
     def finished(self):
         """Return True if UndoSearch has found enough records."""
-        # BAW: Why 39 please?  This makes no sense (see also below).
-        return self.i >= self.last or self.pos < 39 or self.stop
+        # The first transaction record starts right after the 4-byte
+        # magic string; there is nothing to search before it.
+        return self.i >= self.last or self.pos <= 4 or self.stop
 
     def search(self):
         """Search for another record."""
